@@ -91,7 +91,7 @@ func applyC12Tamper(rng *Rng, l *c12Log, other *c12Log, tm *c12Tamper) map[strin
 	var keys []string
 	class := "hash"
 	switch tm.Kind {
-	case "data-flip-payload", "data-truncate-payload", "data-swap", "data-reorder", "data-alter-uncovered", "data-alter-timestamp", "data-alter-index", "data-alter-and-fix-level0", "data-flip-compressed", "data-other-log", "data-delete", "data-duplicate-entry", "data-retype":
+	case "data-flip-payload", "data-truncate-payload", "data-swap", "data-reorder", "data-alter-uncovered", "data-alter-timestamp", "data-alter-index", "data-alter-and-fix-level0", "data-flip-compressed", "data-other-log", "data-delete", "data-duplicate-entry", "data-retype", "data-append-entry", "data-append-junk", "data-extra-gzip-member":
 		class = "data"
 	}
 	for k := range l.objs {
@@ -191,6 +191,22 @@ func applyC12Tamper(rng *Rng, l *c12Log, other *c12Log, tm *c12Tamper) map[strin
 		es := decode()
 		es[rng.Intn(len(es))].LeafIndex += int64(1 + rng.Intn(3))
 		m[key] = reencode(es)
+	case "data-append-entry":
+		// a further well-formed leaf after the W entries of the tile
+		raw, _ := refGunzip(cur)
+		extra := refTileLeaf(nil, &RefEntry{Timestamp: 1, Cert: rng.Bytes(12), LeafIndex: t.N*256 + int64(t.W)})
+		m[key] = refGzip(append(raw, extra...))
+	case "data-append-junk":
+		raw, _ := refGunzip(cur)
+		m[key] = refGzip(append(raw, rng.Bytes(1+rng.Intn(30))...))
+	case "data-extra-gzip-member":
+		// a second gzip member holding other entries, concatenated
+		es := decode()
+		if len(es) == 0 {
+			return nil
+		}
+		es[0].Cert = append(bytes.Clone(es[0].Cert), 1)
+		m[key] = append(bytes.Clone(cur), reencode(es[:1])...)
 	case "data-retype":
 		// the same certificate bytes presented under the other entry type: an
 		// x509 leaf as a precert_entry with a forged issuer key hash and an empty
@@ -257,7 +273,7 @@ func TestC12Client(t *testing.T) {
 	srv := newC12Server()
 	defer srv.srv.Close()
 	kinds := []string{"none", "hash-flip", "hash-truncate", "hash-swap", "hash-other-log", "hash-delete", "data-flip-payload", "data-truncate-payload", "data-swap", "data-other-log", "data-delete",
-		"data-reorder", "data-duplicate-entry", "data-alter-uncovered", "data-alter-timestamp", "data-alter-index", "data-alter-and-fix-level0", "data-flip-compressed", "data-retype", "data-retype"}
+		"data-reorder", "data-duplicate-entry", "data-alter-uncovered", "data-alter-timestamp", "data-alter-index", "data-alter-and-fix-level0", "data-flip-compressed", "data-retype", "data-retype", "data-append-entry", "data-append-junk", "data-extra-gzip-member"}
 	for si, size := range sizes {
 		if si%shards != shard {
 			continue
